@@ -55,6 +55,14 @@ threads perform arbitrary access sequences consistent with the classification, i
 * `C11_pkg_vars_guarded` — every package-level variable of the scanned packages is written after `init` only under a
                          lock / once / its own synchronisation, or belongs to the reviewed start-up registries.
 
+* round 4 — the index arithmetic behind the shared counters (`lib/mp.calcIndex`, `(*NextIterator).Next`,
+                         `(*clientpool.Pool).Next`, bodies regenerated, `Bridge/C11Locks.lean`):
+                         `C11_next_index_partial` (use k < 2^63 of `rows[next]` yields row k mod length),
+                         `C11_next_rows_distinct`, `C11_calc_index_in_bounds`, `C11_pool_index_partial`,
+                         `C11_next_index_statement` / `_counterexample`, `C11_pool_index_statement` / `_counterexample`
+                         (false at 2^63: negative index). `C11_ammo_flows_reviewed` / `C11_acquire_writes_own` cover the
+                         grpc/json and scenario providers too (receiver binding).
+
 The classification itself is checked against the real code by the correspondence driver (aliasing graph, write
 set of a real `Shoot`, race-detector sweep); see `Drv/C11.lean`.
 -/
@@ -504,8 +512,9 @@ example : Pandora.Spec.C11.pkgVarOk ("components/providers/scenario/http/postpro
 
 /-! ### the provider's side: requests built from a decoded ammo that is delivered again -/
 
-/-- the regenerated reference flows of `(*Provider).Acquire` of the http provider and everything it calls: no map of a
-caller is kept, every stored slice / pointer of a caller is a reviewed one -/
+/-- the regenerated reference flows of `(*Provider).Acquire` of the http provider — since round 4 also `Acquire` / `Release`
+of the grpc/json and the scenario providers — and everything they call: no map of a caller is kept, every stored or
+returned slice / pointer of a caller is a reviewed one -/
 theorem C11_ammo_flows_reviewed : Pandora.Gen.Locks.ammoFlows.all Pandora.Spec.C11.flowOk = true := by decide
 
 example : Pandora.Gen.Locks.ammoFlows.length ≥ 3 ∧ Pandora.Gen.Locks.ammoFlowFuncs.length ≥ 5 := by decide
